@@ -272,3 +272,12 @@ M("kary-rounded-boundaries", "PyXAB/partition/KaryPartition.py", "boundary_point
 M("zooming-absolute-eps", "PyXAB/algos/Zooming.py", "                        point[dim] < child_domain[dim][0]\n", "                        point[dim] < child_domain[dim][0] + 1e-7\n", ["C16", "C11"])
 M("stosoo-prefers-positive-side", "PyXAB/algos/StoSOO.py", "                                <= node_list[h][j].get_b_value()\n", "                                <= node_list[h][j].get_b_value() + (0.05 if node_list[h][j].get_cpoint()[0] > 0 else 0)\n", ["C16"])
 M("sequool-centre-unit-box", "PyXAB/algos/SequOOL.py", "            self.curr_node = node_list[0][0]\n            return node_list[0][0].get_cpoint()", "            self.curr_node = node_list[0][0]\n            return [0.5 for _ in node_list[0][0].get_cpoint()]", ["C16", "C12"])
+
+# ---- totality (C01): exercises the hang path (60 s alarm, then deterministic line budget)
+M("stosoo-hang-on-empty-layer", "PyXAB/algos/StoSOO.py", "                h += 1  # increase the search depth",
+  "                if max_b_node_ind is not None or h > 6:\n                    h += 1  # increase the search depth", ["C01"])
+M("hct-nan-u-value", "PyXAB/algos/HCT.py", "                + math.sqrt(c ** 2 * math.log(1 / delta_tilde) / self.visited_times)",
+  "                + math.sqrt(c ** 2 * math.log(1 / delta_tilde) / self.visited_times) * (np.inf if self.visited_times == 40 else 1.0) * (0.0 if self.visited_times == 40 else 1.0)", ["C05"])
+M("soo-none-after-many", "PyXAB/algos/SOO.py", "                            node.visit()\n                            self.curr_node = node\n                            return node.get_cpoint()",
+  "                            node.visit()\n                            self.curr_node = node\n                            return node.get_cpoint() if (h < 7 or node.get_index() % 5) else None", ["C01"])
+M("vroom-sample-outside-on-negative-box", "PyXAB/algos/VROOM.py", "            point = np.random.uniform(domain[0], domain[1])", "            point = np.random.uniform(domain[0], domain[1] if domain[1] > 0 else domain[1] + abs(domain[1] - domain[0]))", ["C01", "C13"])
